@@ -91,3 +91,29 @@ Theorem C08_postfix_capture_spans_are_relative_to_the_suffix : forall hc e t r t
   build e = BuildOk t r -> partition hc e t = Ok (PartSome text post e') -> In c (captures post) -> span_ok e' (snd c).
 Proof. exact postfix_capture_spans_ok. Qed.
 Print Assumptions C08_postfix_capture_spans_are_relative_to_the_suffix.
+
+From WaxProofs Require Import DepthAltFacts PartitionRoot.
+
+(* "a postfix glob that is never rooted": for every glob that builds and has no repetition.  The prefix loop stops either at a variant
+   boundary - a tree wildcard, which gives up its root - or right after the last boundary before the first variant token, and what follows
+   a separator cannot begin with a boundary: a token that reports a root has an expansion that begins with one, which the rule checker
+   excludes over expansions (C06).  With repetitions: the known class rooted_repetition *)
+Theorem C08_postfix_is_never_rooted : forall hc e sp ts r text post e',
+  build e = BuildOk (TCat sp ts) r -> rep_free (TCat sp ts) = true ->
+  partition hc e (TCat sp ts) = Ok (PartSome text post e') -> has_root post = Never.
+Proof. exact built_postfix_never_rooted. Qed.
+Print Assumptions C08_postfix_is_never_rooted.
+
+(* hence idempotence without side condition for those globs *)
+Theorem C08_partition_is_idempotent_for_built_globs_without_repetitions : forall hc e sp ts r text post e',
+  build e = BuildOk (TCat sp ts) r -> rep_free (TCat sp ts) = true ->
+  partition hc e (TCat sp ts) = Ok (PartSome text post e') -> partition hc e' post = Ok (PartSome [] post e').
+Proof. exact built_partition_idempotent. Qed.
+Print Assumptions C08_partition_is_idempotent_for_built_globs_without_repetitions.
+
+(* the premises are satisfiable: {s,t}/**/*.r has no prefix and an unrooted postfix *)
+Example C08_never_rooted_nonvacuous :
+  let e := [123;115;44;116;125;47;42;42;47;42;46;114]%N in
+  exists sp ts r post e', build e = BuildOk (TCat sp ts) r /\ rep_free (TCat sp ts) = true /\
+     partition (fun _ => false) e (TCat sp ts) = Ok (PartSome [] post e') /\ has_root post = Never.
+Proof. cbv zeta. do 5 eexists. repeat split; vm_compute; reflexivity. Qed.
